@@ -77,6 +77,7 @@ def _text_denotes(d, v, flds, exp):
 
 def run(rep, tier):
     cx = Ctx(rep, "std")
+    rep.where_by_opcode = cx.opcode_where(cx.roles.api("disassembler::to_insn_vec"))
     root = cx.roles.api("disassembler::to_insn_vec")
     if root is None:
         return
